@@ -355,7 +355,9 @@ theorem safeShape_of_sites (tbl : List AliasRow) (op : OpK) :
   | .wrapN k p opts, h => by
     simp only [sitesOf, List.all_cons] at h
     have h' := and_true_split h
-    simp only [safeShape, modeOf_copies h'.1, safeOpts_of_sites tbl op k opts h'.2, Bool.and_self]
+    have hfb : (modeOf tbl op (fallbackSite k p opts).1 (fallbackSite k p opts).2).copies = true :=
+      modeOf_copies (k := (fallbackSite k p opts).1) (c := (fallbackSite k p opts).2) h'.1
+    simp only [safeShape, hfb, safeOpts_of_sites tbl op k opts h'.2, Bool.and_self]
   | .owned s, h => by
     simp only [sitesOf] at h
     simp only [safeShape, safeShape_of_sites tbl op s h]
@@ -468,12 +470,14 @@ def witnessItem : Cat → Shape
   | .struct => .keyed .struct [("x", .scalar .number)]
   | .inline => .keyed .inline [("x", .scalar .number)]
   | .wrap => .wrap .anyOf (.coll .array (.scalar .number))
+  | .enum => .scalar .enum
   | _ => .scalar .scalar
 
 def witnessShape (k : Kind) (c : Cat) : Shape :=
   match k with
   | .array | .deque | .set | .immSet | .tuple | .map => .coll k (witnessItem c)
   | .anyOf | .oneOf | .allOf | .notF => .wrap k (witnessItem c)
+  | .misfit => .wrapN .anyOf (.fixed 0) [match c with | .coll => .coll .map (.scalar .number) | _ => witnessItem c]
   | .any => .any
   | .document | .mapping | .names | .required | .enumValues | .default | .schema | .fieldState => .wrap k .any
   | _ => .keyed k [("x", .scalar .number)]
